@@ -142,7 +142,7 @@ def r05_3(ctx, rep, roles):
         f = fx.fns[cs.caller]
         eng = sym.Engine(fx, no_inline={sns, inc["id"]}, inline_only=set(getattr(fx, "new_helpers", ())))
         okc = False
-        for row in eng.table(cs.caller):
+        for row in eng.table(cs.real_caller):
             for e in row.calls():
                 if e[1] == inc["id"]:
                     recv = T.resolve_locals(eng, row.store, e[2][0])
